@@ -147,11 +147,15 @@ def res(synset1: Synset, synset2: Synset, ic: Freq) -> float:
 
     """
     _check_if_pos_compatible(synset1.pos, synset2.pos)
-    # the maximum information content among the lowest common hypernyms
-    # is that of the one with the smallest weight
+    # the maximum information content is that of the common hypernym
+    # with the smallest weight; look at ALL common hypernyms: the lowest
+    # ones (greatest depth) need not include it when a shallower common
+    # hypernym lies on another branch
     pos_ic = ic[ADJ if synset1.pos == ADJ_SAT else synset1.pos]
-    lcs = min(_least_common_subsumers(synset1, synset2, False),
-              key=lambda ss: pos_ic[ss.id])
+    common = synset1.common_hypernyms(synset2)
+    if not common:
+        raise wn.Error(f'no common hypernyms for {synset1!r} and {synset2!r}')
+    lcs = min(common, key=lambda ss: pos_ic[ss.id])
     return information_content(lcs, ic)
 
 
